@@ -109,6 +109,11 @@ def class_programs(seed, n):
                  ("g6", List(Bin("*", I(a % 6), I(2)), Bin("-", I(b), I(1)))), ("g7", Un("-", Bin("*", I(c % 6), I(3)))),
                  ("g8", Bin("||", Bin(">=", Bin("*", I(5), I(1)), I(5)), Bin("==", I(a), I(b))))]
         fns["main"]["body"]["ss"].append(Print(V("g3"), V("g4"), V("g5"), V("g6"), V("g7"), V("g8")))
+        # the program's own variables may be called anything, also what a rewrite would like to call its helpers
+        names = ["count_once", "_i", "mul_res", "lhs_init", "mul_count", "count_once_1", "_i_2", "mul_res_3"]
+        fns["main"]["body"]["ss"] += [Let(nm, I(k + 2)) for k, nm in enumerate(names)] + \
+            [Print(*[V(nm) for nm in names]), Print(Bin("+", V("mul_res"), I(2)), Bin("+", V("count_once"), Bin("-", V("_i"), I(3))))] + \
+            [For("_i", Range(I(0), I(2)), Block([Print(V("_i"), V("count_once"))]))]
         progs.append(Program("cls%d" % i, fns, globs=globs, feats={"family": "class"}))
     # pure arithmetic trees over small values with every operator: what the rewrites print must mean the same
     def tree(d, ty):
@@ -163,6 +168,9 @@ def run(args):
         [p for p in Fam.closure_programs() if p["feats"]["variant"] in ("read-direct", "write", "list", "loop", "nested", "global")] + Fam.nestings(2, rnd, sample=400 if thorough else 60) + \
         Fam.random_programs(600 if thorough else 100, C.seed() + 20)
     progs = [p for p in cand if in_class(p, passes)]
+    for fam in ("class", "templates"):
+        if not any(p["feats"].get("family") == fam for p in progs):
+            raise C.Machinery("no program of family %s lies in the class: the class test or the generator is wrong" % fam)
     rep.notes["candidates"] = len(cand)
     rep.notes["in_class"] = len(progs)
     cases = sem.run_spec(progs, rep)
